@@ -56,6 +56,12 @@ def diagnose(q, A, B, exp, got, why):
     return 'update-mismatch'
 
 
+def diagnose_js(q, A, B, exp, got, why):
+    if why.startswith("caller's input array modified"):
+        return 'F4:js-update-mutates-caller-rows'
+    return 'update-mismatch'
+
+
 def run_shard(sh):
     res = core.Result()
     sp_ = space(sh['tier'], sh['seed'])
@@ -63,6 +69,7 @@ def run_shard(sh):
     tabs = {'plain': list(qcheck.tables_upto(sp_['rows'], maxrows)) + [qcheck.long_table(sp_['rows'], 2)],
             'named': list(qcheck.tables_upto(sp_['nrows'], maxrows + 1)) + [qcheck.long_table(sp_['nrows'], 3)],
             'join': list(qcheck.tables_upto(sp_['jrows'], maxrows)) + [qcheck.long_table(sp_['jrows'][:4], 2)]}
+    jscases = []
     for qi, (kind, q) in enumerate(sp_['qs'][sh['lo']:sh['hi']]):
         sp = refql.Spelling(update_set=(qi % 2 == 0))
         text = refql.render(q, 'py', sp)
@@ -71,6 +78,7 @@ def run_shard(sh):
         for B in Blist:
             for A in tabs[kind]:
                 exp, got, why = qcheck.run_case(res, q, A, B, a_names=names, diagnose=diagnose, text=text)
+                jscases.append((q, A, B, names, None))
                 res.states += 1
                 res.transitions += 1 if A else 0
                 if why is None:
@@ -89,6 +97,7 @@ def run_shard(sh):
                 res.outcome(repr((exp.records, exp.error))[:60])
         if qi % 97 == 3:
             res.sample({'query': text, 'tables': len(tabs[kind]) * len(Blist)})
+    qcheck.run_js_cases(res, jscases, diagnose_js)
     return res
 
 
